@@ -26,7 +26,7 @@ from vlib import Ctx, log
 
 ID = "C09"
 LEVEL = "proof"
-MODULES = ["SqlframeModel.Props.C09"]
+MODULES = ["SqlframeModel.Codec.C09", "SqlframeModel.Props.C09"]
 GEN = ["Values"]
 SOURCES = [
     "SqlframeModel/Props/C09.lean",
@@ -246,6 +246,19 @@ def decimal_typed(x: float) -> bool:
     return math.isfinite(x) and "e" not in r and "E" not in r
 
 
+def nested_model(v: t.Any, nan_is_null: bool, top: bool = True) -> t.Any:
+    """the model's prediction for a value whose NaNs INSIDE a list / Row are written by `Column._lit`
+    (sqlglot's `convert` turns a NaN into NULL when `_lit` has no NaN case of its own)"""
+    Row = S()["Row"]
+    if isinstance(v, Row):
+        return Row(**{n: nested_model(x, nan_is_null, False) for n, x in zip(v.__fields__, v)})
+    if isinstance(v, list):
+        return [nested_model(x, nan_is_null, False) for x in v]
+    if not top and nan_is_null and isinstance(v, float) and math.isnan(v):
+        return None
+    return v
+
+
 def group_type(vals: t.Iterable[t.Any]) -> str:
     """DuckDB's unified type of the float literals of one VALUES column / array as sqlframe writes them:
     DOUBLE if any literal has an exponent, else the NaN literal's type if there is a NaN, else DECIMAL
@@ -274,11 +287,14 @@ ADV = [
 ]
 NAMES = ["a", "b", "c", "d", "e", "k", "v", "w", "x1", "y_2", "col", "val"]
 SCALAR_KINDS = ["int", "bool", "float", "floatinf", "str", "bytes", "date", "ts", "tstz"]
-NESTED_KINDS = ["list_int", "list_str", "list_float", "list_list_int", "row", "row_nested"]
+NESTED_KINDS = ["list_int", "list_str", "list_float", "list_list_int", "row", "row_nested", "list_row", "list_list_row", "list_tstz", "list_float_nan", "row_f"]
+STRUCTY = ("row", "row_nested", "list_row", "list_list_row", "row_f")  # declared type text contains a comma
 DECL = {
     "int": "bigint", "bool": "boolean", "float": "double", "floatinf": "double", "str": "string", "bytes": "binary", "date": "date",
     "ts": "timestamp", "tstz": "timestamp", "list_int": "array<bigint>", "list_str": "array<string>", "list_float": "array<double>",
     "list_list_int": "array<array<bigint>>", "row": "struct<a:bigint,b:string>", "row_nested": "struct<a:array<bigint>,b:struct<c:string>>",
+    "list_row": "array<struct<a:bigint,b:string>>", "list_list_row": "array<array<struct<a:bigint,b:string>>>", "list_tstz": "array<timestamp>",
+    "list_float_nan": "array<double>", "row_f": "struct<x:double,y:string>",
 }
 
 
@@ -342,8 +358,28 @@ def gen_ts(rng: random.Random, tz: bool) -> datetime.datetime:
     return d
 
 
-def gen_val(rng: random.Random, kind: str, nul_ok: bool = False) -> t.Any:
+def gen_val(rng: random.Random, kind: str, nul_ok: bool = False, lead_none: bool = False) -> t.Any:
+    """`lead_none`: the column's type is declared, so an array may START with a NULL element"""
     Row = S()["Row"]
+    if kind in ("list_row", "list_list_row", "list_tstz"):
+        def one() -> t.Any:
+            if kind == "list_row":
+                return Row(a=gen_int(rng), b=gen_str(rng))
+            if kind == "list_list_row":
+                return [None if rng.random() < 0.2 else Row(a=gen_int(rng), b=gen_str(rng)) for _ in range(rng.randint(1, 2))] if not lead_none or rng.random() < 0.7 else [None, Row(a=gen_int(rng), b="z")]
+            return gen_ts(rng, True)
+        out = [one()] + [None if rng.random() < 0.25 else one() for _ in range(rng.randint(0, 2))]
+        if kind == "list_list_row" and not lead_none and out[0] and out[0][0] is None:
+            out[0][0] = Row(a=1, b="q")
+        if lead_none and rng.random() < 0.6:
+            out = [None] + out
+        return out
+    if kind == "list_float_nan":
+        out = [gen_float(rng) for _ in range(rng.randint(1, 3))]
+        out.insert(rng.randint(1, len(out)), math.nan)
+        return out
+    if kind == "row_f":
+        return Row(x=math.nan if rng.random() < 0.5 else gen_float(rng), y=gen_str(rng))
     if kind == "int":
         return gen_int(rng)
     if kind == "bool":
@@ -377,10 +413,12 @@ def gen_val(rng: random.Random, kind: str, nul_ok: bool = False) -> t.Any:
     raise ValueError(kind)
 
 
-def gen_cdf(rng: random.Random, oos: t.Optional[str] = None) -> dict:
+def gen_cdf(rng: random.Random, oos: t.Optional[str] = None, force: t.Optional[t.Tuple[str, str]] = None) -> dict:
     """one createDataFrame case; `oos` asks for a case violating that named hypothesis"""
     container = rng.choice(["tuple", "list", "dict", "Row"])
     form = rng.choice(["none", "names", "ddl", "dict", "struct"])
+    if force:
+        container, form = force
     ncols = rng.randint(1, 4)
     nrows = rng.randint(1, 4)
     kinds = [rng.choice(SCALAR_KINDS + NESTED_KINDS if rng.random() < 0.4 else SCALAR_KINDS) for _ in range(ncols)]
@@ -391,7 +429,7 @@ def gen_cdf(rng: random.Random, oos: t.Optional[str] = None) -> dict:
         form = "ddl"
         kinds[0] = rng.choice(["row", "row_nested"])
     elif form == "ddl":
-        kinds = [k if k not in ("row", "row_nested") else "list_int" for k in kinds]
+        kinds = [k if k not in STRUCTY else "list_int" for k in kinds]
     if oos == "H_dictOrder":
         container, kinds, ncols = "dict", ["int"] * max(2, ncols), max(2, ncols)
         names = sorted(rng.sample(NAMES, ncols))
@@ -410,7 +448,7 @@ def gen_cdf(rng: random.Random, oos: t.Optional[str] = None) -> dict:
         row = []
         for c in cols:
             nul = oos == "H_noNul" and c["kind"] in ("str", "list_str", "row") and r == 0
-            v = gen_val(rng, c["kind"], nul_ok=nul)
+            v = gen_val(rng, c["kind"], nul_ok=nul, lead_none=form in ("dict", "struct"))
             if r > 0 and rng.random() < 0.15:
                 v = None
             row.append(enc(v))
@@ -451,7 +489,9 @@ def _str_leaves_enc(row: t.List[t.Any]) -> t.Iterator[t.Any]:
 
 
 def gen_lit(rng: random.Random, use: str, oos: t.Optional[str] = None) -> dict:
-    kinds = SCALAR_KINDS + (["list_int", "list_str", "list_list_int", "row", "list_float"] if use == "lit_select" else [])
+    kinds = SCALAR_KINDS + (["list_int", "list_str", "list_list_int", "row", "list_float", "list_row", "list_tstz", "list_float_nan", "row_f"] if use == "lit_select" else [])
+    if use == "isin_where":
+        kinds = ["int", "bool", "float", "str", "date", "ts"]
     kind = rng.choice(kinds)
     if oos == "H_noNul":
         kind = "str"
@@ -461,13 +501,13 @@ def gen_lit(rng: random.Random, use: str, oos: t.Optional[str] = None) -> dict:
         kind = "list_float"
     if use == "lit_select" and rng.random() < 0.05 and not oos:
         return {"use": use, "kind": "none", "v": enc(None)}
-    v = gen_val(rng, kind, nul_ok=(oos == "H_noNul"))
+    v = gen_val(rng, kind, nul_ok=(oos == "H_noNul"), lead_none=True)
     if oos == "H_noNul" and "\x00" not in v:
         v += "\x00"
     if oos == "H_listFloat":
         v = [0.1] + v
     c = {"use": use, "kind": kind, "v": enc(v)}
-    if use == "lit_where":
+    if use in ("lit_where", "isin_where"):
         for _ in range(20):
             w = gen_val(rng, kind)
             if kind == "str":
@@ -598,7 +638,8 @@ def run_impl(c: dict) -> dict:
             else:
                 base = sess.createDataFrame([(v,)], ["c"])
                 rhs = F.lit(v) if c["use"] == "lit_where" else v
-                rows = base.where(F.col("c") == rhs).collect()
+                pred = F.col("c").isin(v, dec(c["w"])) if c["use"] == "isin_where" else F.col("c") == rhs
+                rows = base.where(pred).collect()
                 out["sql"] = st["log"][-1]
                 out["n"] = len(rows)
                 out["value"] = rows[0][0] if rows else None
@@ -643,6 +684,13 @@ def lean_req(i: int, c: dict, impl: dict) -> dict:
         "schema": None,
         "dict": None,
     }
+    try:
+        return _lean_req_fill(req, c, vals)
+    finally:
+        req["kinds"] = list(req["kinds"]) + ["floatNan"]  # probe: how a NaN that is not the whole literal is written
+
+
+def _lean_req_fill(req: dict, c: dict, vals: t.List[t.Any]) -> dict:
     if c["use"] == "cdf":
         first = [dec(x) for x in c["rows"][0]]
         req["kinds"] = [pykind(v) for v in first]
@@ -714,8 +762,9 @@ def judge(c: dict, impl: dict, L: dict) -> dict:
         m_names = sch["derived"]
         spec_names = sch["spec"]
         rows_in = [[dec(x) for x in row] for row in c["rows"]]
-        # model rows: dict rows may be laid out positionally
-        m_rows = [list(r) for r in rows_in]
+        nan_is_null = L["kinds"][-1]["operand"] == "null"
+        # model rows: dict rows may be laid out positionally; nested NaNs go through `_lit`
+        m_rows = [[nested_model(x, nan_is_null) for x in r] for r in rows_in]
         if L["dict"]:
             ri = c["perm_row"]
             in_key_order = [rows_in[ri][j] for j in c["perm"]]
@@ -796,7 +845,7 @@ def judge(c: dict, impl: dict, L: dict) -> dict:
     else:
         v = vals[0]
         k = L["kinds"][0]
-        if not k["hinf"] and c["use"] in ("lit_select", "operand_where"):
+        if not k["hinf"] and c["use"] in ("lit_select", "operand_where", "isin_where"):
             scope.append("H_infLiteral")
         if any(not f["ok"] for f in L["floats"]) and c["use"] == "lit_select":
             scope.append("H_listFloat")
@@ -820,7 +869,7 @@ def judge(c: dict, impl: dict, L: dict) -> dict:
                 if L["nans"] and L["nans"][0]["bits"] == 24 and group_type(v) == "nan":
                     m_val = [f32(x) for x in v]
             else:
-                m_val = spec_value(v)
+                m_val = spec_value(nested_model(v, L["kinds"][-1]["operand"] == "null"))
             if "err" in impl:
                 model_notes.append(f"model: no error; implementation {impl['err']}")
                 spec_notes.append(f"raises {impl['err']}")
@@ -833,7 +882,7 @@ def judge(c: dict, impl: dict, L: dict) -> dict:
                 if lexed and sql_strs != exp_toks:
                     model_notes.append(f"string tokens {show(sql_strs)} vs expected {show(exp_toks)}")
         else:
-            binder = c["use"] == "operand_where" and k["kind"] == "floatInf" and k["operand"] == "number"
+            binder = c["use"] in ("operand_where", "isin_where") and k["kind"] == "floatInf" and k["operand"] == "number"
             if binder:
                 if "err" not in impl:
                     model_notes.append("model: the bare word inf is not a number for the engine; implementation: no error")
@@ -843,8 +892,11 @@ def judge(c: dict, impl: dict, L: dict) -> dict:
                 spec_notes.append(f"raises {impl['err']}")
             else:
                 want = 0 if v is None else 1
+                # a NaN operand written as NULL matches nothing (model); Spark: NaN = NaN is true
+                m_want = 0 if (c["use"] in ("operand_where", "isin_where") and k["kind"] == "floatNan" and k["operand"] == "null") else want
+                if impl["n"] != m_want or (c["use"] == "lit_where" and impl.get("n_other") != 0):
+                    model_notes.append(f"where matched {impl['n']}/{impl.get('n_other')} rows, model {m_want}")
                 if impl["n"] != want or (c["use"] == "lit_where" and impl.get("n_other") != 0):
-                    model_notes.append(f"where matched {impl['n']}/{impl.get('n_other')} rows")
                     spec_notes.append(f"where(col == literal) matched {impl['n']} rows (other value: {impl.get('n_other')})")
     return {"scope": sorted(set(scope)), "model_notes": model_notes, "spec_notes": spec_notes}
 
@@ -894,6 +946,8 @@ def show_case(c: dict) -> str:
         return f"df.select(lit({show(v)}))"
     if c["use"] == "lit_where":
         return f"createDataFrame([({show(v)},)], ['c']).where(col('c') == lit({show(v)}))"
+    if c["use"] == "isin_where":
+        return f"createDataFrame([({show(v)},)], ['c']).where(col('c').isin({show(v)}, {show(dec(c['w']))}))"
     return f"createDataFrame([({show(v)},)], ['c']).where(col('c') == {show(v)})"
 
 
@@ -1010,18 +1064,7 @@ def cases_for(ctx: Ctx) -> t.List[dict]:
     for cont in ["tuple", "list", "dict", "Row"]:
         for form in ["none", "names", "ddl", "dict", "struct"]:
             for _ in range(3 if ctx.thorough else 2):
-                while True:
-                    c = gen_cdf(rng)
-                    if c["form"] == "ddl" and form != "ddl":
-                        continue
-                    c["container"], c["form"] = cont, form
-                    if form == "ddl" and any(x["kind"] in ("row", "row_nested") for x in c["cols"]):
-                        continue
-                    if cont == "dict":
-                        srt = sorted(range(len(c["cols"])), key=lambda i: c["cols"][i]["name"])
-                        c["cols"] = [c["cols"][i] for i in srt]
-                        c["rows"] = [[r[i] for i in srt] for r in c["rows"]]
-                    break
+                c = gen_cdf(rng, force=(cont, form))
                 c["origin"] = "matrix"
                 cases.append(c)
     n = 1500 if ctx.thorough else 130
@@ -1030,7 +1073,7 @@ def cases_for(ctx: Ctx) -> t.List[dict]:
         c["origin"] = "random"
         cases.append(c)
     for _ in range(n):
-        c = gen_lit(rng, rng.choice(["lit_select", "lit_select", "lit_where", "operand_where"]))
+        c = gen_lit(rng, rng.choice(["lit_select", "lit_select", "lit_where", "operand_where", "isin_where"]))
         c["origin"] = "random"
         cases.append(c)
     # inputs outside the scope hypotheses (each must be classified, never silently skipped)
@@ -1069,15 +1112,105 @@ def adjacent_observations() -> t.List[dict]:
     return obs
 
 
+def py_risky(c: dict) -> bool:
+    """could a named scope hypothesis apply to this case?  (decided without the Lean model, conservatively)"""
+    vals = case_values(c)
+    for x in (y for v in vals for y in leaves(v)):
+        if isinstance(x, str) and "\x00" in x:
+            return True
+        if isinstance(x, float) and math.isinf(x):
+            return True
+    if c["use"] == "cdf":
+        if "perm" in c or "schema_names" in c or any(col["name"].strip() != col["name"] for col in c["cols"]):
+            return True
+        if c["form"] == "ddl" and any(col["kind"] in STRUCTY for col in c["cols"]):
+            return True
+    elif c["use"] == "lit_select" and isinstance(vals[0], list) and any(isinstance(x, float) and math.isfinite(x) for x in vals[0]):
+        return True
+    return False
+
+
+def same_loose(a: t.Any, b: t.Any) -> bool:
+    """`same`, but a finite float may be off by single-precision rounding (H_nanWidth cannot be decided here)"""
+    Row = S()["Row"]
+    if isinstance(b, float) and math.isfinite(b):
+        return isinstance(a, float) and abs(a - b) <= abs(b) * 2.0**-22
+    if isinstance(b, Row):
+        return isinstance(a, Row) and list(a.__fields__) == list(b.__fields__) and len(a) == len(b) and all(same_loose(x, y) for x, y in zip(a, b))
+    if isinstance(b, list):
+        return isinstance(a, list) and len(a) == len(b) and all(same_loose(x, y) for x, y in zip(a, b))
+    return same(a, b)
+
+
+def spec_notes_only(c: dict, impl: dict) -> t.List[str]:
+    notes: t.List[str] = []
+    vals = case_values(c)
+    if "err" in impl:
+        return [f"raises {impl['err']}"]
+    if c["use"] == "cdf":
+        names = [x["name"] for x in c["cols"]]
+        want = names if not (c["form"] == "none" and c["container"] in ("tuple", "list")) else [f"_{i + 1}" for i in range(len(names))]
+        if impl["names"] != want:
+            notes.append(f"df.columns {impl['names']} != {want}")
+        rows_in = [[dec(x) for x in row] for row in c["rows"]]
+        if len(impl["rows"]) != len(rows_in):
+            notes.append(f"{len(impl['rows'])} rows back, {len(rows_in)} in")
+        else:
+            for ri, (a, b) in enumerate(zip(impl["rows"], rows_in)):
+                for ci, (x, y) in enumerate(zip(a, b)):
+                    if not same_loose(x, spec_value(y)):
+                        notes.append(f"row {ri} column {ci}: {show(x)} back, {show(y)} in")
+    elif c["use"] == "lit_select":
+        if not same_loose(impl["value"], spec_value(vals[0])):
+            notes.append(f"select(lit(v)) gives {show(impl['value'])} for {show(vals[0])}")
+    else:
+        want_n = 0 if vals[0] is None else 1
+        if impl["n"] != want_n or (c["use"] == "lit_where" and impl.get("n_other") != 0):
+            notes.append(f"where(col == / isin literal) matched {impl['n']} rows, expected {want_n} (other value: {impl.get('n_other')})")
+    return notes
+
+
+def case_size(c: dict) -> int:
+    return len(json.dumps(c))
+
+
+def spec_only_stream(ctx: Ctx) -> None:
+    cases = [c for c in cases_for(ctx) if not c.get("origin", "").startswith("out-of-scope") and not py_risky(c)]
+    bad = []
+    for c in cases:
+        impl = run_impl(c)
+        notes = spec_notes_only(c, impl)
+        if notes:
+            bad.append((c, impl, notes))
+    bad.sort(key=lambda x: case_size(x[0]))
+    for c, impl, notes in bad[:3]:
+        vlib.report_violation(
+            ctx,
+            {
+                "kind": "a value / name does not survive the trip through the engine (specification side only: the regenerated model is unavailable)",
+                "program": show_case(c),
+                "case": c,
+                "implementation": public_impl(impl),
+                "differs_from_specification": notes[:5],
+                "broken": ctx.broken,
+            },
+        )
+    if not bad:
+        vlib.report_violation(ctx, {"kind": "the regenerated model is unavailable: a construct the proofs hinge on left the translated shape", "broken": ctx.broken, "searched": {"cases": len(cases)}}, no_input=True)
+    ctx.cov.update({"evaluations": len(cases), "distinct_nontrivial": len({vlib.digest({k: v for k, v in c.items() if k != "origin"}) for c in cases if nontrivial(c)}),
+                    "rule": "specification-side stream only (Gen.Values could not be regenerated): the in-scope part of the usual stream, implementation vs the values put in",
+                    "samples": [show_case(c) for c in cases[:3]], "traces_validated_against_impl": 0, "spec_only_failures": len(bad)})
+
+
 def run(ctx: Ctx) -> None:
     idx = vlib.props_index()[ID]
     vlib.prove(ctx, MODULES, GEN, idx["theorems"], SOURCES)
     known = known_entries()
     if any("untranslatable" in b or "bad import" in b for b in ctx.broken):
-        # the source left the translator's sub-language: there is no current model to run the stream against
-        # (the compiled driver would be the one of an older tree)
-        vlib.report_violation(ctx, {"kind": "the regenerated model is unavailable: a construct the proofs hinge on left the translated shape", "broken": ctx.broken}, no_input=True)
-        ctx.cov.update({"evaluations": 0, "distinct_nontrivial": 0, "rule": "no stream: Gen.Values could not be regenerated", "samples": [], "traces_validated_against_impl": 0})
+        # the source left the translator's sub-language: there is no current model (the compiled driver would be
+        # the one of an older tree).  Fall back to the specification side alone: implementation vs the values put
+        # in, on the conservative subset of the stream that no named hypothesis can touch.
+        spec_only_stream(ctx)
         return
 
     cases = cases_for(ctx)
